@@ -25,12 +25,12 @@ Here is a semantic property of pandora that currently HOLDS on this tree:
 
 YOUR TASK: make a realistic change to pandora's non-test source code that BREAKS this property — the kind of thing a well-meaning developer could plausibly commit: a refactoring slip, an "optimisation", a misplaced or dropped lock, an off-by-one, two reordered statements, a forgotten case, a wrong default. Requirements:
  (a) the project still compiles: `go build ./...`;
- (b) the ENTIRE existing test suite still passes, unedited: `go test -vet=off -count=1 ./...` from the worktree root (do not edit, delete or skip any existing test);
+ (b) the ENTIRE existing test suite still passes, unedited (do not edit, delete or skip any existing test). Several packages under tests/ listen on fixed ports and other jobs on this machine run the same suite at the same time, so ALWAYS run the suite in a private network namespace: `unshare -n sh -c 'ip link set lo up; go test -vet=off -count=1 ./...'` from the worktree root;
  (c) the breakage must need something specific to manifest — a particular interleaving of instances/goroutines, a fault, cancel or signal at a particular point, a multi-step sequence of operations, an unusual but valid input or configuration, or two cooperating code sites that each look fine on their own — NOT something that ordinary use or the simplest possible input would expose at once;
  (d) keep it small (ideally under 30 changed lines), no new dependencies, no build tags, no environment-variable or magic-constant triggers, no comments that give it away.
 {hint}
 DELIVERABLES in {d}.out/ :
  1. patch.diff — the output of `git diff` for your source change only (it must apply with `git apply` to a clean checkout of the same commit; do not include the demo in it);
- 2. demo/ — a demonstration that FAILS (non-zero exit status) with your change applied and PASSES without it: either a Go test file (say into which package directory of the tree it has to be copied) or a small Go program. Verify BOTH outcomes yourself: run it with the change, then `git stash` (or `git apply -R`) and run it again, then restore the change. Make it deterministic or make it retry enough that it fails reliably with the change and never fails without it;
+ 2. demo/ — a demonstration that FAILS (non-zero exit status) with your change applied and PASSES without it: either a Go test file (say into which package directory of the tree it has to be copied) or a small Go program. Verify BOTH outcomes yourself: run it with the change, then revert with `git apply -R <your patch.diff>` and run it again, then re-apply the change with `git apply`. NEVER use `git stash` — the stash is shared by all worktrees of this repository and other jobs use it at the same time. Make it deterministic or make it retry enough that it fails reliably with the change and never fails without it;
  3. meta.json — {{"property": "{pid}", "summary": "<what you changed and why it breaks the property>", "needs": "<what it needs in order to manifest>", "files": ["<changed files>"], "demo_install": "<where to copy the demo files, if anywhere>", "demo_cmd": "<exact command(s) to run the demo from the worktree root>", "suite": "<the suite command you ran and its result>"}}.
 Leave the worktree with your change applied (uncommitted) and the demo files NOT inside the tree (only under {d}.out/demo/). Finish with a short report: what you changed, how it manifests, and the results of the suite and of the demo with and without the change.""")
